@@ -120,13 +120,28 @@ use std::time::{Duration, SystemTime, UNIX_EPOCH};
 /// need a consistent value users can pass to indicate "bypass cache" behavior.
 const O_DIRECT: i32 = 0x4000;
 
+/// Map the POSIX-style error strings used by [`crate::Fs`] to the
+/// `ErrorKind` std reports for the corresponding errno.
+fn posix_err(msg: &'static str) -> Error {
+    let kind = match msg {
+        "No such file or directory" => ErrorKind::NotFound,
+        "File exists" => ErrorKind::AlreadyExists,
+        "Not a directory" => ErrorKind::NotADirectory,
+        "Is a directory" => ErrorKind::IsADirectory,
+        "Directory not empty" => ErrorKind::DirectoryNotEmpty,
+        "No space left on device" => ErrorKind::StorageFull,
+        _ => ErrorKind::Other,
+    };
+    Error::new(kind, msg)
+}
+
 /// Creates a new directory at the provided path.
 ///
 /// Like file creation, directory creation is not durable until the parent
 /// directory is synced.
 pub fn create_dir<P: AsRef<Path>>(path: P) -> Result<()> {
     let path = path.as_ref().to_path_buf();
-    FsContext::current(|ctx| ctx.fs.mkdir(&path, ctx.now).map_err(Error::other))
+    FsContext::current(|ctx| ctx.fs.mkdir(&path, ctx.now).map_err(posix_err))
 }
 
 /// Creates a directory and all of its parent components if they are missing.
@@ -155,7 +170,7 @@ pub fn create_dir_all<P: AsRef<Path>>(path: P) -> Result<()> {
             if ctx.fs.dir_exists(&dir) || ctx.fs.file_exists(&dir) {
                 continue;
             }
-            ctx.fs.mkdir(&dir, ctx.now).map_err(Error::other)?;
+            ctx.fs.mkdir(&dir, ctx.now).map_err(posix_err)?;
         }
         Ok(())
     })
@@ -164,7 +179,7 @@ pub fn create_dir_all<P: AsRef<Path>>(path: P) -> Result<()> {
 /// Removes an empty directory.
 pub fn remove_dir<P: AsRef<Path>>(path: P) -> Result<()> {
     let path = path.as_ref().to_path_buf();
-    FsContext::current(|ctx| ctx.fs.rmdir(&path).map_err(Error::other))
+    FsContext::current(|ctx| ctx.fs.rmdir(&path).map_err(posix_err))
 }
 
 /// Syncs a directory, making its entries durable.
@@ -232,7 +247,7 @@ pub fn remove_dir<P: AsRef<Path>>(path: P) -> Result<()> {
 /// ```
 pub fn sync_dir<P: AsRef<Path>>(path: P) -> Result<()> {
     let path = path.as_ref().to_path_buf();
-    FsContext::current(|ctx| ctx.fs.sync_dir(&path, ctx.now).map_err(Error::other))
+    FsContext::current(|ctx| ctx.fs.sync_dir(&path, ctx.now).map_err(posix_err))
 }
 
 /// Removes a file from the filesystem.
@@ -241,6 +256,9 @@ pub fn sync_dir<P: AsRef<Path>>(path: P) -> Result<()> {
 pub fn remove_file<P: AsRef<Path>>(path: P) -> Result<()> {
     let path = path.as_ref().to_path_buf();
     FsContext::current(|ctx| {
+        if ctx.fs.ancestor_is_file(&path) {
+            return Err(posix_err("Not a directory"));
+        }
         ctx.fs
             .unlink(&path)
             .map_err(|e| Error::new(ErrorKind::NotFound, e))
@@ -254,7 +272,7 @@ pub fn remove_file<P: AsRef<Path>>(path: P) -> Result<()> {
 pub fn rename<P: AsRef<Path>, Q: AsRef<Path>>(from: P, to: Q) -> Result<()> {
     let from = from.as_ref().to_path_buf();
     let to = to.as_ref().to_path_buf();
-    FsContext::current(|ctx| ctx.fs.rename(&from, &to).map_err(Error::other))
+    FsContext::current(|ctx| ctx.fs.rename(&from, &to).map_err(posix_err))
 }
 
 /// Returns `true` if the path points at an existing entity.
@@ -353,6 +371,9 @@ pub fn metadata<P: AsRef<Path>>(path: P) -> Result<Metadata> {
             });
         }
 
+        if ctx.fs.ancestor_is_file(&resolved) {
+            return Err(posix_err("Not a directory"));
+        }
         Err(Error::new(
             ErrorKind::NotFound,
             "file or directory not found",
@@ -368,6 +389,9 @@ pub fn read_dir<P: AsRef<Path>>(path: P) -> Result<ReadDir> {
     let path = path.as_ref().to_path_buf();
     FsContext::current(|ctx| {
         if !ctx.fs.dir_exists(&path) {
+            if ctx.fs.file_exists(&path) || ctx.fs.ancestor_is_file(&path) {
+                return Err(posix_err("Not a directory"));
+            }
             return Err(Error::new(ErrorKind::NotFound, "directory not found"));
         }
 
@@ -658,7 +682,7 @@ impl File {
                 .ok_or_else(|| Error::new(ErrorKind::NotFound, "file handle not found"))?
                 .clone();
 
-            ctx.fs.sync_file(&path).map_err(Error::other)
+            ctx.fs.sync_file(&path).map_err(posix_err)
         })
     }
 
@@ -680,7 +704,7 @@ impl File {
                 .ok_or_else(|| Error::new(ErrorKind::NotFound, "file handle not found"))?
                 .clone();
 
-            ctx.fs.sync_file_data(&path).map_err(Error::other)
+            ctx.fs.sync_file_data(&path).map_err(posix_err)
         })
     }
 
@@ -851,7 +875,7 @@ impl File {
             let write_end = offset + buf.len() as u64;
             let additional = write_end.saturating_sub(current_len);
             if additional > 0 {
-                ctx.fs.check_space(additional).map_err(Error::other)?;
+                ctx.fs.check_space(additional).map_err(posix_err)?;
             }
 
             ctx.fs.write_file(&path, offset, buf, ctx.now);
@@ -1287,6 +1311,9 @@ impl OpenOptions {
                 if self.create || self.create_new {
                     // Check parent directory exists
                     if !ctx.fs.parent_exists(&resolved_path) {
+                        if ctx.fs.ancestor_is_file(&resolved_path) {
+                            return Err(posix_err("Not a directory"));
+                        }
                         return Err(Error::new(
                             ErrorKind::NotFound,
                             "parent directory not found",
@@ -1296,6 +1323,12 @@ impl OpenOptions {
                     ctx.fs
                         .create_file_with_mode(&resolved_path, ctx.now, self.mode);
                 } else {
+                    if ctx.fs.dir_exists(&resolved_path) && (self.write || self.append) {
+                        return Err(posix_err("Is a directory"));
+                    }
+                    if ctx.fs.ancestor_is_file(&resolved_path) {
+                        return Err(posix_err("Not a directory"));
+                    }
                     return Err(Error::new(ErrorKind::NotFound, "file not found"));
                 }
             }
@@ -1390,7 +1423,7 @@ pub fn set_permissions<P: AsRef<Path>>(path: P, perm: Permissions) -> Result<()>
     FsContext::current(|ctx| {
         ctx.fs
             .set_permissions(&path, perm.mode, ctx.now)
-            .map_err(Error::other)
+            .map_err(posix_err)
     })
 }
 
@@ -1403,7 +1436,7 @@ pub fn symlink<P: AsRef<Path>, Q: AsRef<Path>>(original: P, link: Q) -> Result<(
     FsContext::current(|ctx| {
         ctx.fs
             .create_symlink(&link, &original, ctx.now)
-            .map_err(Error::other)
+            .map_err(posix_err)
     })
 }
 
@@ -1504,7 +1537,7 @@ pub fn hard_link<P: AsRef<Path>, Q: AsRef<Path>>(original: P, link: Q) -> Result
     FsContext::current(|ctx| {
         ctx.fs
             .create_hard_link(&link, &original, ctx.now)
-            .map_err(Error::other)
+            .map_err(posix_err)
     })
 }
 
@@ -1555,7 +1588,7 @@ fn create_dir_with_mode<P: AsRef<Path>>(path: P, mode: u32) -> Result<()> {
     FsContext::current(|ctx| {
         ctx.fs
             .mkdir_with_mode(&path, ctx.now, mode)
-            .map_err(Error::other)
+            .map_err(posix_err)
     })
 }
 
@@ -1586,7 +1619,7 @@ fn create_dir_all_with_mode<P: AsRef<Path>>(path: P, mode: u32) -> Result<()> {
             }
             ctx.fs
                 .mkdir_with_mode(&dir, ctx.now, mode)
-                .map_err(Error::other)?;
+                .map_err(posix_err)?;
         }
         Ok(())
     })
@@ -1735,6 +1768,9 @@ pub fn remove_dir_all<P: AsRef<Path>>(path: P) -> Result<()> {
     let path = path.as_ref().to_path_buf();
     FsContext::current(|ctx| {
         if !ctx.fs.dir_exists(&path) {
+            if ctx.fs.file_exists(&path) || ctx.fs.ancestor_is_file(&path) {
+                return Err(posix_err("Not a directory"));
+            }
             return Err(Error::new(ErrorKind::NotFound, "directory not found"));
         }
 
@@ -1743,7 +1779,7 @@ pub fn remove_dir_all<P: AsRef<Path>>(path: P) -> Result<()> {
         remove_dir_contents_recursive(ctx.fs, &path)?;
 
         // Finally remove the directory itself
-        ctx.fs.rmdir(&path).map_err(Error::other)
+        ctx.fs.rmdir(&path).map_err(posix_err)
     })
 }
 
@@ -1757,10 +1793,10 @@ fn remove_dir_contents_recursive(fs: &mut crate::Fs, path: &Path) -> Result<()> 
             // Recursively remove subdirectory contents
             remove_dir_contents_recursive(fs, &entry_path)?;
             // Remove the now-empty subdirectory
-            fs.rmdir(&entry_path).map_err(Error::other)?;
+            fs.rmdir(&entry_path).map_err(posix_err)?;
         } else if fs.file_exists(&entry_path) || fs.symlink_exists(&entry_path) {
             // Remove file or symlink
-            fs.unlink(&entry_path).map_err(Error::other)?;
+            fs.unlink(&entry_path).map_err(posix_err)?;
         }
     }
 
